@@ -68,10 +68,11 @@ type shownVer struct {
 	Body string // nothing = no body
 	X    string // "" = none
 	Cas  uint64
+	Exp  uint32
 }
 
 func verOf(s St) shownVer {
-	v := shownVer{Body: nothing, Cas: s.Cas}
+	v := shownVer{Body: nothing, Cas: s.Cas, Exp: s.Exp}
 	if s.HasBody() {
 		v.Body = jsonCanon(string(s.Body))
 	}
@@ -114,6 +115,11 @@ func runInterfereCase(c interfereCase) (devs []Deviation, interfered bool, err e
 		}
 		shown = append(shown, v)
 		before, _ := Observe(ds, key, []string{"_x"})
+		if n > 0 && verOf(before) != after[n-1] {
+			// nobody but the call itself wrote since the previous invocation ended: an abandoned
+			// attempt left something behind
+			bad("rmw.partial", "between callback invocations %d and %d of %s the document changed from %+v to %+v although the only writer was the call itself, whose attempt was abandoned", n-1, n, c.RMW, after[n-1], verOf(before))
+		}
 		if n < len(c.Interf) {
 			for _, op := range c.Interf[n] {
 				serial++
@@ -130,15 +136,56 @@ func runInterfereCase(c interfereCase) (devs []Deviation, interfered bool, err e
 	switch c.RMW {
 	case "Update":
 		_, callErr = ds.Update(key, 0, func(cur []byte) ([]byte, *uint32, bool, error) {
-			if len(shown) > 8 {
+			if len(shown) > 14 {
 				return nil, nil, false, fmt.Errorf("too many retries")
 			}
 			v := step(cur, nil, 0, false)
 			return []byte(appendTag(v.Body, tag)), nil, false, nil
 		})
+	case "UpdateExpOnce":
+		// an expiry-only Update: the first invocation asks for an expiry, a later one (the version
+		// changed under it) cancels: nothing of the abandoned attempt may stick to the new version
+		expOnce := nowSec() + 7200
+		_, callErr = ds.Update(key, 0, func(cur []byte) ([]byte, *uint32, bool, error) {
+			if len(shown) > 14 {
+				return nil, nil, false, fmt.Errorf("too many retries")
+			}
+			step(cur, nil, 0, false)
+			if len(shown) == 1 {
+				e := expOnce
+				return nil, &e, false, nil
+			}
+			return nil, nil, false, nil
+		})
+		if callErr == nil && len(shown) > 0 {
+			last := len(shown) - 1
+			final, _ := Observe(ds, key, []string{"_x"})
+			fv := verOf(final)
+			switch {
+			case len(shown) >= 2:
+				// retried and then cancelled: the document is exactly what the interference left
+				if fv != after[last] {
+					b, _ := json.Marshal(map[string]any{"shown": shown, "after": after, "final": fv})
+					bad("rmw.cancelled", "an expiry-only Update whose callback cancelled on its last invocation still changed the document: interference left %+v, final %+v (%s)", after[last], fv, b)
+				}
+			case changed[0]:
+				// a single invocation although the version changed under it: if the body the callback
+				// was shown is not the current one, nothing may have been applied (a key without body,
+				// before and after, is the don't-care corner "expiry on nothing")
+				if shown[0].Body != after[0].Body && fv != after[0] {
+					bad("rmw.stale", "an expiry-only Update was applied although the document changed after its callback was shown it: shown %+v, current when writing %+v, final %+v", shown[0], after[0], fv)
+				}
+			case shown[0].Body != nothing && fv.Exp != expOnce:
+				bad("rmw.result", "an expiry-only Update returned success but the expiry is %d, not %d", fv.Exp, expOnce)
+			}
+		}
+		for _, ch := range changed {
+			interfered = interfered || ch
+		}
+		return
 	case "UpdateX", "UpdateXTomb":
 		_, callErr = ds.WriteUpdateWithXattrs(ctx, key, []string{"_x"}, 0, nil, nil, func(doc []byte, xattrs map[string][]byte, cas uint64) (sgbucket.UpdatedDoc, error) {
-			if len(shown) > 8 {
+			if len(shown) > 14 {
 				return sgbucket.UpdatedDoc{}, fmt.Errorf("too many retries")
 			}
 			v := step(doc, xattrs, cas, true)
@@ -221,7 +268,7 @@ func runInterfereCase(c interfereCase) (devs []Deviation, interfered bool, err e
 }
 
 func genInterfereCase(rt *rapid.T) interfereCase {
-	c := interfereCase{Disk: chance(rt, 30, "disk"), Handles: rapid.IntRange(1, 2).Draw(rt, "handles"), RMW: pick(rt, []string{"Update", "UpdateX", "UpdateX", "UpdateXTomb"}, "rmw")}
+	c := interfereCase{Disk: chance(rt, 30, "disk"), Handles: rapid.IntRange(1, 2).Draw(rt, "handles"), RMW: pick(rt, []string{"Update", "UpdateX", "UpdateX", "UpdateXTomb", "UpdateExpOnce"}, "rmw")}
 	c.H = rapid.IntRange(0, c.Handles-1).Draw(rt, "h")
 	gen := func(label string, max int) []iOp {
 		n := rapid.IntRange(0, max).Draw(rt, label)
@@ -232,7 +279,7 @@ func genInterfereCase(rt *rapid.T) interfereCase {
 		return ops
 	}
 	c.Prior = gen("nprior", 4)
-	rounds := rapid.IntRange(1, 3).Draw(rt, "rounds")
+	rounds := pick(rt, []int{1, 1, 2, 2, 3, 3, 6, 11}, "rounds")
 	for i := 0; i < rounds; i++ {
 		c.Interf = append(c.Interf, gen("ninterf", 3))
 	}
